@@ -218,8 +218,10 @@ func vfKeystoreReset(factory bool) {
 	if ev != 0 {
 		evAt = 8*vfChoose("eventAtDatastoreOp/8", (vfParam("MAXOPS")+7)/8) + vfChoose("eventAtDatastoreOp%8", 8)
 	}
+	putTwice := false
 	if ev == 1 {
 		cIdx = vfChoose("putKey", 3)
+		putTwice = vfBool("putNamesTheKeyTwice")
 	}
 	rctx, rcancel := context.WithCancel(ctx)
 	defer rcancel()
@@ -235,7 +237,11 @@ func vfKeystoreReset(factory bool) {
 		switch ev {
 		case 1:
 			go func() {
-				_, putErr = ks.Put(ctx, all[cIdx])
+				if putTwice {
+					_, putErr = ks.Put(ctx, all[cIdx], all[cIdx])
+				} else {
+					_, putErr = ks.Put(ctx, all[cIdx])
+				}
 				if putErr == nil {
 					putAckedAt = len(disk.journal)
 				}
